@@ -2,6 +2,8 @@ import Model.Render
 import Model.Message
 import Proofs.MessageHdr
 import Proofs.MessageCounts
+import Proofs.MessageCompress
+import Proofs.ParseMessageOpt
 /-!
 # C03 — messages survive render-then-parse unchanged; compression is sound
 
@@ -44,6 +46,116 @@ theorem counts_are_section_counts (m : Message) (hq : ∀ r ∈ m.q, r.rdatas = 
       simp only [rrCount, List.map_cons, List.sum_cons, List.length_cons] at h2 ⊢
       rw [h2, h1]; simp; omega
   simp [Message.sectionCounts, key m.q hq]
+
+/-- "Every compression pointer the renderer emits targets an earlier occurrence of exactly that name suffix":
+the renderer emits a pointer only for a hit in its compression table (`Name.to_wire`), so the clause is the
+invariant that the table is *sound*.  For every message whose names are legal (`namesOk`: absolute — possibly
+after appending the origin — and within the 63/255 limits), any limit, with or without truncation: in the
+finished message `w`, every table entry `(suffix, off)` — every target any pointer of `w` can have — satisfies
+`off ≤ 0x3FFF`, `off < |w|`, and running the library's own name decoder (`from_wire_parser`, i.e. `fromWireAux`)
+at `off` succeeds, follows only strictly backward pointers (that is how `fromWireAux` is defined), and yields
+exactly that suffix up to ASCII case (reading of DESIGN §6 "Case and compression"). -/
+theorem compression_sound (m : Message) (lim : Nat) (pt : Bool) (r : RState) (hok : m.namesOk)
+    (h : m.render lim pt = .ok r) :
+    ∀ p ∈ r.tbl, p.2 ≤ Consts.maxPtr ∧ p.2 < r.out.length ∧
+      ∃ n fwd, fromWireAux r.out r.out.length p.2 p.2 p.2 [] = .ok (n, fwd) ∧ lowerName n = lowerName p.1 := by
+  intro p hp
+  obtain ⟨hs, hb⟩ := render_sound m lim pt r hok h
+  obtain ⟨hle, ls, fwd, hd, hr⟩ := hs p hp
+  refine ⟨hle, hb p hp, ls ++ [[]], max p.2 fwd, ?_, hr⟩
+  have := fromWireAux_of_Dec hd p.2 []
+  simpa using this
+
+/-- … and each name the renderer writes in a state whose table is sound (a) only appends to buffer and table,
+(b) keeps the table sound, and (c) decodes, from the offset it was written at and following only pointers into
+the earlier part of the buffer, to the name up to ASCII case — whatever the offset (also beyond 0x3FFF, where
+nothing new is remembered).  By induction over the rendering this covers every pointer of the message. -/
+theorem compression_sound_name (out : Bytes) (t : CTable) (n : Name) (origin : Option Name) (hok : NameOk origin n)
+    (hs : TableSound NameEqv out t) :
+    ∃ ext new full, toWireC out t n origin = .ok (out ++ ext, t ++ new) ∧ wireName n origin = some full ∧
+      TableSound NameEqv (out ++ ext) (t ++ new) ∧
+      ∃ got fwd, fromWireAux (out ++ ext) (out ++ ext).length out.length out.length out.length [] = .ok (got, fwd)
+        ∧ fwd = (out ++ ext).length ∧ lowerName got = lowerName full := by
+  obtain ⟨full, hw, hwf, habs⟩ := hok
+  obtain ⟨h1, ls, hd, hr⟩ := cLoop_sound out t full hwf habs hs
+  have hfw := hd.fwd_le
+  refine ⟨(cLoop out.length t full).1, (cLoop out.length t full).2, full, ?_, hw, h1, ls ++ [[]],
+    max out.length (out.length + (cLoop out.length t full).1.length), ?_, ?_, hr⟩
+  · rw [toWireC_eq, hw]
+  · have := fromWireAux_of_Dec hd out.length []
+    simpa using this
+  · simp
+
+/-- non-vacuity of `compression_sound`: a response with a shared suffix and a case-differing repeat has legal names -/
+example : ({ id := 1, flags := 32768, q := [{ name := [[119,119,119],[101,120],[]], rdclass := 1, rdtype := 2 }], an := [{ name := [[87,87,87],[69,88],[]], rdclass := 1, rdtype := 2, ttl := 5, rdatas := [.name1 [[110,115],[101,120],[]]] }] } : Message).namesOk := by
+  refine ⟨?_, by intro t ht; simp at ht⟩
+  intro it hit
+  simp [Message.items] at hit
+  rcases hit with rfl | rfl
+  · exact ⟨_, rfl, by refine ⟨?_, ?_, ?_⟩ <;> decide, rfl⟩
+  · refine ⟨⟨_, rfl, by refine ⟨?_, ?_, ?_⟩ <;> decide, rfl⟩, ?_⟩
+    intro rd hrd
+    simp at hrd; subst hrd
+    exact ⟨_, rfl, by refine ⟨?_, ?_, ?_⟩ <;> decide, rfl⟩
+
+/-- "Rendering any well-formed message … and parsing the bytes yields a message with the same id, flags,
+opcode, rcode … and the same records in every section (equal to the original whenever it uses absolute names)".
+Full statement: for every well-formed message `m` (any opcode incl. UPDATE, with OPT/TSIG, with or without
+origin), `parseMessage cfg (m.toWire lim false) = .ok m'` with `m'` equal to `m` as the library compares messages.
+Proved here (`MsgOkE`) for: absolute names (no origin), no TSIG record, no padding request, opcode other than
+UPDATE; with or without the EDNS OPT record (any version/flags/extended-rcode bits in its ttl, any payload, any
+option list); arbitrary id/flags (hence opcode and header rcode), any number of questions and of record sets per section, any
+mix of opaque, NS/CNAME/PTR-, MX- and SOA-shaped RDATA, any owner-name sharing pattern — every name may be
+compressed against any earlier one, at any offset.  The result is the original message up to the ASCII case of
+names (`Message.sim`: the parser returns a compressed name in the case of the occurrence it was compressed
+against — the library's own name equality; DESIGN §6 reading), all other fields identical, record sets in the
+original order with their rdatas in the original order, the parser consuming exactly the whole message (no
+`TrailingJunk`), with `one_rr_per_rrset=False` and any `ignore_trailing`.
+The EDNS state (`Message.opt`: version, flags, extended rcode, payload, options) comes back identical, hence so
+do `rcode()`, `edns`, `ednsflags`, `payload`, `options`.
+What is missing for the full statement: the TSIG record, the padding option, update messages (`update_forms`:
+delete-rrset / delete-rr / prerequisite forms through the ANY/NONE classes) and relativisation against an origin
+are covered by the correspondence check and the direct oracle only; so is `render_parse_render` (re-rendering
+the parsed message reproduces the bytes), which follows from this theorem only where the parsed message is
+identical to the original (no case-variant repeats). -/
+theorem parse_render_partial (m : Message) (lim : Nat) (w : Bytes) (hok : MsgOkE m) (h : m.toWire lim false = .ok w)
+    (cfg : PCfg) (horg : cfg.origin = none) (hnorr : cfg.oneRRPerRRset = false) :
+    ∃ m', parseMessage cfg w = .ok m' ∧ m'.sim m ∧ m'.id = m.id ∧ m'.flags = m.flags ∧ m'.opcode = m.opcode ∧
+      m'.opt = m.opt ∧ m'.rcode = m.rcode ∧ m'.edns = m.edns := by
+  obtain ⟨m', hp, hs⟩ := parse_toWire_opt m lim w hok h cfg horg hnorr
+  have ho : m'.opt = m.opt := hs.2.2.2.2.2.2.1
+  refine ⟨m', hp, hs, hs.1, hs.2.1, ?_, ho, ?_, ?_⟩
+  · simp [Message.opcode, hs.2.1]
+  · simp [Message.rcode, Message.ednsflags, hs.2.1, ho]
+  · simp [Message.edns, ho]
+
+/-- non-vacuity of `parse_render_partial`: a response with a question, an NS record set of two records whose
+owner repeats the question name in another case and whose targets share its suffix, and an opaque A record set -/
+example : MsgOkE { id := 7, flags := 33152, opt := some { ttl := 16809984, payload := 1232, options := [(10, [1,2,3,4,5,6,7,8])] }, q := [{ name := [[119,119,119],[101,120],[]], rdclass := 1, rdtype := 2 }], an := [{ name := [[87,87,87],[69,88],[]], rdclass := 1, rdtype := 2, ttl := 5, rdatas := [.name1 [[110,115],[101,120],[]], .name1 [[110,116],[101,120],[]]] }], ad := [{ name := [[110,115],[101,120],[]], rdclass := 1, rdtype := 1, ttl := 5, rdatas := [.raw [192,0,2,1]] }] } := by
+  have wf : ∀ n : Name, n ∈ [[[119,119,119],[101,120],[]], [[87,87,87],[69,88],[]], [[110,115],[101,120],[]], [[110,116],[101,120],[]]] → NameOk none n := by
+    intro n hn
+    simp at hn
+    rcases hn with rfl | rfl | rfl | rfl <;> exact ⟨_, rfl, by refine ⟨?_, ?_, ?_⟩ <;> decide, rfl⟩
+  refine ⟨rfl, by decide, by decide, by decide, ?_, rfl, rfl, ?_, ?_, ?_, ?_, ?_, ?_, ?_, by decide⟩
+  · intro o ho; simp at ho; subst ho
+    refine ⟨by decide, by decide, ?_, by decide, trivial⟩
+    intro p hp; simp at hp; subst hp; exact ⟨by decide, by decide⟩
+  · intro r hr; simp at hr; subst hr
+    exact ⟨wf _ (by simp), by decide, by decide, rfl, rfl, rfl, rfl⟩
+  · intro r hr; simp at hr; subst hr
+    refine ⟨wf _ (by simp), by decide, by decide, by decide, by decide, rfl, by simp, ?_, by decide, by decide⟩
+    intro rd hrd; simp at hrd
+    rcases hrd with rfl | rfl
+    · exact ⟨wf _ (by simp), by decide, by decide⟩
+    · exact ⟨wf _ (by simp), by decide, by decide⟩
+  · intro r hr; simp at hr
+  · intro r hr; simp at hr; subst hr
+    refine ⟨wf _ (by simp), by decide, by decide, by decide, by decide, rfl, by simp, ?_, by decide, by decide⟩
+    intro rd hrd; simp at hrd; subst hrd
+    exact ⟨trivial, by decide, by decide⟩
+  · simp
+  · simp
+  · simp
 
 /-- "the same … rcode incl. extended": splitting an rcode over the header nibble and the top octet of the OPT
 ttl (`rcode.to_flags`) and joining it again (`rcode.from_flags`) is the identity on 0..4095; the two parts do not
